@@ -692,13 +692,20 @@ impl Runner {
                     // that carries the stream's identity.
                     let _ = s.wait(0);
                     let ys = rec::take();
-                    let id = ys.iter().find_map(|r| match r.ev {
-                        Ev::Yield { site, id, addr } => Some(match site {
-                            Site::WaitForRead | Site::WaitForWrite => id,
-                            _ => addr,
-                        }),
-                        _ => None,
-                    });
+                    // Ring streams pass Buffer::wait_for_read/write (carries the
+                    // buffer id); packet streams only have address-carrying sites.
+                    let id = ys
+                        .iter()
+                        .find_map(|r| match r.ev {
+                            Ev::Yield { site: Site::WaitForRead | Site::WaitForWrite, id, .. } => Some(id),
+                            _ => None,
+                        })
+                        .or_else(|| {
+                            ys.iter().find_map(|r| match r.ev {
+                                Ev::Yield { site: Site::NcWait | Site::StrongCount, addr, .. } => Some(addr),
+                                _ => None,
+                            })
+                        });
                     let closed = s.closed();
                     rec::clear();
                     (Verdict::WaitStream, id, *n, closed, None)
